@@ -119,7 +119,9 @@ def main(argv=None):
         jobs = []
         if args.replay:
             rp = json.load(open(args.replay))
-            jobs.append({"prop": prop, "tier": tier, "seed": seed, "mode": "replay", "case": rp["case"], "timeout": 600})
+            hashseeds = [0, 1, 2, 3] if rp["case"].get("kind") == "determinism" else [0]
+            for hs in hashseeds:
+                jobs.append({"prop": prop, "tier": tier, "seed": seed, "mode": "replay", "case": rp["case"], "timeout": 600, "hashseed": hs})
         else:
             specs = mod.plan(tier, seed)
             for i, spec in enumerate(specs):
@@ -156,6 +158,22 @@ def main(argv=None):
         known.extend(r.get("known", []))
         notes.extend(r.get("notes", []))
         inconcl.extend(r.get("inconclusive", []))
+
+    # ---- cross-process determinism: same key must give the same digest in every shard
+    dig = {}
+    for i, r in enumerate(results):
+        for key, d in r.get("digests", {}).items():
+            dig.setdefault(key, []).append((jobs[i].get("hashseed", 0), d))
+    ncross = 0
+    for key, lst in dig.items():
+        if len(lst) > 1:
+            ncross += 1
+            if len({d["digest"] for _, d in lst}) > 1:
+                counters["violations"] = counters.get("violations", 0) + 1
+                violations.append({"property": prop, "monitor": f"{prop}.determinism", "msg": f"results differ between fresh processes (PYTHONHASHSEED {[h for h, _ in lst]}) for case {key}",
+                                   "case": dict(lst[0][1]["case"], kind="determinism"), "details": {"digests": [d["digest"] for _, d in lst]}, "seed": seed, "shard": -1, "tier": tier})
+    if dig:
+        counters["mon.cross_process_cases"] = ncross
 
     if not args.replay:
         floors = meta.get("floors", {}).get(tier, {})
